@@ -51,3 +51,19 @@ Definition ok_chunk (c : nat * list nat) : bool :=
   end.
 
 Definition mismatches_chunk := mismatches ok_chunk.
+
+(** C17: trajectory of the response-type suffix over one in-process history, under the class
+    the scanner found for that variable. *)
+From V Require Import Model.History Gen.Globals.
+
+Definition class_of (v : string) : gclass :=
+  match find (fun g => String.eqb (fst g) v) globals with
+  | Some g => snd g
+  | None => InitOnly
+  end.
+
+Definition ok_suffix (c : string * list suffix_call * list string) : bool :=
+  let '(start, h, obs) := c in
+  list_eqb String.eqb (suffix_trajectory (class_of "responseTypeSuffix") start h) obs.
+
+Definition mismatches_suffix := mismatches ok_suffix.
